@@ -286,7 +286,12 @@ def oracle_error_contract(ctx, t, r):
     _, pos, problem = r
     if not (isinstance(pos, int) and 0 <= pos <= len(t)):
         t2 = shrink(t, lambda x: (lambda q: q[0] == "syntax" and not (0 <= q[1] <= len(x)))(real_lex(x)))
-        ctx.fail("position-out-of-range:%s" % eof_feature(t2),
+        feat = eof_feature(t2)
+        p2 = real_lex(t2)[1]
+        if feat == "escape-at-eof" and p2 != len(t2) + 1:
+            # the pinned finding L6 (and `error_in_range_partial`) is EXACTLY len + 1: anything else is another defect
+            feat = "escape-at-eof:not-len-plus-1"
+        ctx.fail("position-out-of-range:%s" % feat,
                  "syntax error position %r is outside the text (len %d)" % (real_lex(t2)[1], len(t2)),
                  {"part": PART, "kind": "lex", "text": cps(t2)})
     if problem:
